@@ -132,6 +132,11 @@ def bounded(params):
                         failures.append({"input": {"pred": list(a), "ref": list(b), "metric": metric, "many": many, "thr": thr},
                                          "clauses": bad, "exception": exc, "labelmap": lm, "witness_class": wc, "replay_kind": "c03.e2e"})
                     prev = lm if lm is not None else prev
+    for mname_ in ("IOU", "DSC", "ASSD"):
+        sr = scorer({"metric": mname_})
+        evals += 1
+        for pb in sr["problems"][:1]:
+            failures.append({"input": {"metric": mname_, "case": pb}, "clauses": [str(pb)[:300]], "replay_kind": "c03.scorer"})
     return {"evaluations": evals, "distinct_nontrivial": len(nontrivial), "failures": failures, "exhaustive": tier != "quick",
             "rule": "1-D uint8 instance-map pairs of length 5, <=3 labels each, canonical up to renaming (quick: 250 seeded pairs; thorough: all) x {IOU,DSC,ASSD} x thresholds x many-to-one; non-trivial = at least one match",
             "bound": "length 5, 3 labels"}
@@ -187,4 +192,15 @@ def scorer(params):
         if bad:
             bad[-1] = {"pred": pred.tolist(), "ref": ref.tolist(), "problem": bad[-1][:300]}
             break
+    if not bad:
+        # nearly equal competing candidates (IoU 0.40000 vs 0.40033): the order must follow the exact scores, not a rounded key
+        ref = np.zeros(3000, np.uint16); ref[:] = 1
+        pred = np.zeros(3000, np.uint16); pred[:1200] = 1; pred[1200:2401] = 2
+        ref[2990:] = 0
+        for p_, r_ in ((pred, ref), (pred[::-1].copy(), ref[::-1].copy())):
+            got = _calc_matching_metric_of_overlapping_labels(p_, r_, (1,), Metric[mname])
+            sc = [float(s) for s, _ in got]
+            if any(not SM.better_eq(mname, a, b) for a, b in zip(sc, sc[1:])):
+                bad.append({"case": "two predictions on one reference with nearly equal scores", "problem": f"{mname} scores not best-first: {sc}"})
+                break
     return {"violated": bool(bad), "problems": bad[:2]}
